@@ -127,7 +127,7 @@ def check_correlations(case):
         diag_checked = int(learnable.sum())
         require(bool(np.all(np.abs(dg[learnable] - 1) <= 1e-9)), "diagonal:not-1", "diagonal %r (identity learnable: %r)" % (dg.tolist(), learnable.tolist()), facts)
     const = bool(np.any(A.std(axis=0) == 0))
-    return Outcome([case["model"], "k=%d" % k, "draws=%d" % case["draws"], "minmax" if case["minmax"] else "single", case["dtype"],
+    return Outcome([case["model"], "k=%d" % k, "draws=%d" % case["draws"] if case["draws"] <= 4 else "draws>=11", "minmax" if case["minmax"] else "single", case["dtype"],
                     "const-col" if const else "no-const-col", "index:" + ik, "object-column" if case.get("object_columns") else "numeric-dtypes"], k >= 2 and case["draws"] >= 2)
 
 
@@ -154,7 +154,7 @@ def _cor_cases(draw, tier="quick"):
     if draw(st.booleans()):
         labels = draw(st.lists(st.integers(0, 20), min_size=5, max_size=5, unique=True))
     return dict(table=table, columns=labels, dtype=dtype, model=draw(st.sampled_from(["linear", "linear", "tree", "dummy", "sticky-warm"])),
-                draws=draw(st.integers(1, 4)), minmax=draw(st.booleans()), seed=draw(st.integers(0, 2**31 - 2)),
+                draws=draw(st.integers(1, 4)) if draw(st.integers(0, 11)) else draw(st.sampled_from([12, 30, 60])), minmax=draw(st.booleans()), seed=draw(st.integers(0, 2**31 - 2)),
                 index=draw(st.sampled_from(["default", "default", "permuted", "repeated", "strings"])),
                 index_keys=draw(st.lists(st.integers(0, 10**6), min_size=40, max_size=40)),
                 object_columns=draw(st.lists(st.integers(0, 4), min_size=1, max_size=2)) if draw(st.integers(0, 4)) == 0 else [])
